@@ -3,13 +3,14 @@ CONSTANTS
   NSlots = 1
   NFiles = 0
   MaxDim = 3
-  Lams <- MCLams
+  Lams <- MCLamsBig
   ValsLo <- MCLo
   ValsHi <- MCHi
   Kinds = {"arch", "param"}
   MaxDec = 4
   MaxDecHi = 4
   MaxOps = 100
+  Hetero = FALSE
 INVARIANT GramDef
 INVARIANT IsInverse
 INVARIANT Symmetric
@@ -19,6 +20,8 @@ INVARIANT DimFollowsLayer
 INVARIANT LowestTerms
 PROPERTY Ownership
 PROPERTY InitScale
+INVARIANT LamPositive
+PROPERTY LamStable
 CONSTRAINT Bound
 VIEW core
 CHECK_DEADLOCK FALSE
